@@ -11,8 +11,15 @@
   * `live_is_url` — `MermaidJsLive` is the mermaid.ink URL followed by the URL-safe base64 of that same text.
   That the *model state* holds exactly the live tables / columns / keys of the schema is C05 (state correspondence); the
   executable predicate re-derives the ERD from the reference schema and compares it with the Go text on every case.
+  * `blocks_of_the_reference_schema_partial` — **from scripts**, the structural part (Proofs/MermaidScripts.lean): for every
+    script the reference engine accepts (MySQL reader model, column-safe vocabulary), the blocks of the ERD are the
+    selected tables of the *reference schema* in its order, and the lines of a block are the reference columns in table
+    order with the reference name and abbreviated type.  Missing for the full line: the PK/FK marker (it reads the
+    column's own PRIMARY KEY option and foreign-key mark) and the comment (a field of the column record the simulation
+    relation does not follow); both are decided by the export suite on every run.
 -/
 import SqlizeModel.Impl.Mermaid
+import SqlizeModel.Proofs.MermaidScripts
 
 namespace Sqlize.C14
 open Sqlize Sqlize.Mermaid
@@ -110,5 +117,23 @@ theorem live_is_url (m : Migration) (need : List String) :
     live m need = liveUrl ++ Base64.urlEncode (erd m need) := rfl
 
 example : Base64.urlEncode "erDiagram\n T {" = "ZXJEaWFncmFtCiBUIHs=" := by decide
+
+open Sqlize.Spec in
+/-- from scripts: tables and columns of the ERD are those of the reference schema (marker and comment: see the header) -/
+theorem blocks_of_the_reference_schema_partial (rc : Bool) (ss : List Stmt) (db : Spec.DB) (hs : ss.all Stmt.colSafe = true)
+    (he : execAll rc [] ss = some db) (need : List String) :
+    ∃ m, ReaderMysql.run {} ss = .ok m ∧
+      (selectTables m need).map (fun t => (t.name, t.cols.map Mermaid.lineCore)) =
+        (Exports.selectDB db need).map (fun t => (t.name, t.cols.map Exports.lineCore)) :=
+  erd_blocks_of_schema rc ss db hs he need
+
+open Sqlize.Spec in
+/-- the same for the Postgres reader model, on the fragment its fidelity theorem covers -/
+theorem blocks_of_the_reference_schema_pg_partial (rc : Bool) (ss : List Stmt) (db : Spec.DB) (hs : ss.all Stmt.pgSafe = true)
+    (he : execAll rc [] ss = some db) (need : List String) :
+    ∃ m, ReaderPg.run {} ss = .ok m ∧
+      (selectTables m need).map (fun t => (t.name, t.cols.map Mermaid.lineCore)) =
+        (Exports.selectDB db need).map (fun t => (t.name, t.cols.map Exports.lineCore)) :=
+  erd_blocks_of_schema_pg rc ss db hs he need
 
 end Sqlize.C14
